@@ -1,6 +1,6 @@
 /-
-C01 at the level of BYTES (stage 2: TrueType outlines with cmap table and glyph names; no layout
-tables): `Read(Write(F))` computed on the bytes of the file — container (C03), head / hhea / hmtx /
+C01 at the level of BYTES (TrueType outlines with cmap table and glyph names; GDEF/GSUB/GPOS as
+encoded bytes with abstract decoders): `Read(Write(F))` computed on the bytes of the file — container (C03), head / hhea / hmtx /
 maxp / OS-2 (C12), name and post with glyph names (C14), cmap (C09), glyf / loca (C11) composed as write.go and read.go compose
 them — is the explicit normal form.  Model: Model/FontFile.lean; proofs: Proofs/FontFile*.lean.
 -/
@@ -13,11 +13,14 @@ open SfntV SfntV.Font SfntV.FontFile
 of the domain guards of the composed codec theorems, each named in the structure), `Write` produces
 a file and `Read` of exactly those bytes returns the normal form `nfFile F`: scalar fields `nf`,
 glyph data, maxp maxima, the TrueType side tables, the cmap subtables and the glyph names
-unchanged.  The caret angle `Read` recovers
+unchanged; GDEF/GSUB/GPOS are carried as the bytes of their encoders and come back as what the
+layout decoders `ld` make of those bytes (the guard `InDomainFile.gsub` etc. is C08's round trip,
+stated, not composed).  The caret angle `Read` recovers
 from hhea by float trigonometry (`caretOf`) is arbitrary and cannot influence the result. -/
-theorem C01_file_roundtrip (ef : EnvF) (caretOf : Int → Int → Int) (F : FileFont) (h : InDomainFile ef F) :
-    ∃ b, writeFile ef F = .ok b ∧ readFile caretOf b = .ok (nfFile F) :=
-  file_roundtrip ef caretOf F h
+theorem C01_file_roundtrip (ld : LayoutDec) (ef : EnvF) (caretOf : Int → Int → Int) (F : FileFont)
+    (h : InDomainFile ld ef F) :
+    ∃ b, writeFile ef F = .ok b ∧ readFile ld caretOf b = .ok (nfFile F) :=
+  file_roundtrip ld ef caretOf F h
 
 /-! ### non-vacuity: a two-glyph TrueType font in the domain -/
 
@@ -53,6 +56,13 @@ def exFileFont : FileFont :=
     maxpTtf := [317, 36, 0, 0, 2, 216, 348, 141, 0, 500, 3596, 0, 0],
     sideTables := [(tag "cvt ", [0, 1, 0, 2])],
     cmap := some [(⟨0, 3, 0⟩, exCmap4), (⟨3, 1, 0⟩, exCmap4)],
-    glyphNames := some [[46, 110, 111, 116, 100, 101, 102], [65]] }
+    glyphNames := some [[46, 110, 111, 116, 100, 101, 102], [65]],
+    -- an empty GSUB table (version 1.0, three empty lists) as `gtab.Info.Encode` writes it
+    gsub := some [0x00, 0x01, 0x00, 0x00, 0x00, 0x0a, 0x00, 0x0c, 0x00, 0x0e, 0x00, 0x00, 0x00, 0x00, 0x00, 0x00] }
+
+/-- layout decoders of the example: the token of a table is the hex of its bytes -/
+def exLayoutDec : LayoutDec :=
+  { gdef := fun b => .ok (tokenOfBytes b), gsub := fun b => .ok (tokenOfBytes b),
+    gpos := fun b => .ok (tokenOfBytes b) }
 
 end SfntV.Props.C01
